@@ -27,7 +27,9 @@ def family(rng):
     if rng.random() < 0.4:          # particles put to rest by the IBM; the activity flag is saved with the records and restored
         base["out_active"] = True
         base["freeze"] = sorted([rng.randrange(0, nsteps), rng.randrange(0, 6)] for _ in range(rng.choice([1, 2, 3])))
-    return dict(base=base, cls=dict(cont=base["cont"], adv=base["adv"], ops_divides=nsteps % ops == 0, numrec=base["numrec"]))
+    # a third of the families: the restarted run writes the DENSE layout (column = identifier, while the restored state holds the living only)
+    dense = (len(base["rows"]) + nsteps + ops + base["numrec"]) % 3 == 0
+    return dict(base=base, dense_restart=dense, cls=dict(cont=base["cont"], adv=base["adv"], ops_divides=nsteps % ops == 0, numrec=base["numrec"], dense_restart=dense))
 
 
 def family_newest_dies(rng):
@@ -47,7 +49,9 @@ def family_newest_dies(rng):
             if 0 <= s < nsteps:
                 kf += [[s + rng.choice([0, 0, 1, 2]), r["id"]] for r in base["rows"] if r["t"] == t]
     base["killfarm"] = sorted(k for k in kf if k[0] < nsteps)
-    return dict(base=base, cls=dict(cont=False, adv=base["adv"], ops_divides=nsteps % ops == 0, numrec=base["numrec"], directed="newest_dies", pvars=base["pvars"]))
+    dense = (len(base["rows"]) + nsteps + ops + base["numrec"]) % 3 == 0
+    return dict(base=base, dense_restart=dense,
+                cls=dict(cont=False, adv=base["adv"], ops_divides=nsteps % ops == 0, numrec=base["numrec"], directed="newest_dies", pvars=base["pvars"], dense_restart=dense))
 
 
 def run_family(sc):
@@ -74,6 +78,10 @@ def run(tier, seed):
                note="RestartEq: a warm start from every record continues as the uninterrupted run")
     rep.add_mc("MC_Ladim_maxpid(control)", tlc.expect_refuted("MC_Ladim", "MC_Ladim_maxpid.cfg", "RestartEq"),
                note="control: restoring the identifier counter from the highest pid on file (pinned design) is refuted")
+    rep.add_mc("MC_Ladim(dense)", tlc.model_check("MC_Ladim", "MC_Ladim_dense.cfg", must_take=["Restart", "Continue"], timeout=1800),
+               note="a restarted run that writes the dense layout: columns are identifiers although the restored list holds the living particles only")
+    rep.add_mc("MC_Ladim_densebypos(control)", tlc.expect_refuted("MC_Ladim", "MC_Ladim_densebypos.cfg", "DenseAddressing"),
+               note="control: the pinned addressing by list position is refuted after a warm start (D32)")
     rng = random.Random(seed)
     fams = [family(rng) for _ in range(400 if tier == "thorough" else 90)]
     rd = random.Random(seed + 17)
@@ -95,7 +103,7 @@ def run(tier, seed):
     rep.extra["restarts"] = len(rs)
     rep.rule = ("uninterrupted split runs (continuous or discrete release, deaths of release rows by the IBM and at the boundary, IBM age, scalar forcing, EF/RK2/RK4, "
                 "periods that do and do not divide the run, output with and without particle variables, a directed family in which the newest particles die soon "
-                "after release) x a warm start from every completed output file, plus one chained restart from the first file the restarted run completed; "
+                "after release) x a warm start from every completed output file (a third of the families: the restarted run writes the dense layout), plus one chained restart from the first file the restarted run completed; "
                 "non-trivial = number of restarts")
     rep.assumptions = ["diffusion off; output written as f8 / i4 so 'up to output precision' is equality",
                        "state that an IBM changes (age, release row, activity flag of particles put to rest) is written with the records and named in warm_start.variables: "
